@@ -15,6 +15,7 @@ from vcommon import Violation
 LEVEL = "exploration"
 NAMES = ["m0", "m1", "m2", "m3", "m4", "m5"]
 LIBS = ["l0", "l1", "l2"]                       # constructor-less modules (nolib.so)
+NOPOST = ["n0", "n1", "n2"]                     # modules with constructor and destructor but no post-init hook (nopost.so)
 MANY = ["k%03d" % i for i in range(300)]        # for graphs with hundreds of modules
 
 
@@ -104,6 +105,7 @@ def judge(case, rc, stdout, log):
     kind, n, edges, listing, genv = case["kind"], case["n"], case["edges"], case["listing"], case["genv"]
     NAMES = case.get("names") or globals()["NAMES"]
     nolib = set(case.get("nolib") or [])
+    nopost = set(case.get("nopost") or [])
     edges = [tuple(e) for e in edges]
     if kind == "dag2":
         kind = "dag"
@@ -154,6 +156,8 @@ def judge(case, rc, stdout, log):
                 want = 1 if u in need else 0
                 if u in nolib and what.startswith("ctor"):
                     want = 0
+                if u in nopost and what == "post-init":
+                    want = 0
                 if c != want:
                     out.append(("count-" + what, "graph %s listing %s: module %s has %d %s events, want %d" % (
                         genv[:300], listing[:12], nm, c, what, want)))
@@ -167,14 +171,33 @@ def judge(case, rc, stdout, log):
             A, B = NAMES[a], NAMES[b]
             if b not in nolib and not pos[("ctor-end", B)][0] < pos[("ctor-end", A)][0]:
                 out.append(("order-ctor", "graph %s listing %s: %s depends on %s but finished constructing first" % (genv, listing, A, B)))
-            if not pos[("post-init", B)][0] < pos[("post-init", A)][0]:
+            if a in nopost or b in nopost:
+                pass
+            elif not pos[("post-init", B)][0] < pos[("post-init", A)][0]:
                 out.append(("order-postinit", "graph %s listing %s: post-init of %s ran before that of its dependency %s" % (genv, listing, A, B)))
             if not pos[("dtor", A)][0] < pos[("dtor", B)][0]:
                 out.append(("order-dtor", "graph %s listing %s: destructor of dependency %s ran before that of %s" % (genv, listing, B, A)))
         # everything constructed before any post-init, every post-init before any destructor
         ctor_last = max([pos[("ctor-end", NAMES[u])][0] for u in need if u not in nolib] or [-1])
-        pi_first = min(pos[("post-init", NAMES[u])][0] for u in need)
-        pi_last = max(pos[("post-init", NAMES[u])][0] for u in need)
+        # a dependency holds along a path through hook-less modules too: post-init of everything reachable comes first
+        if nopost:
+            adj = {}
+            for a, b in edges:
+                adj.setdefault(a, []).append(b)
+            for a in need:
+                if a in nopost:
+                    continue
+                for b in reach(edges, [a]) - {a}:
+                    if b in nopost:
+                        continue
+                    if not pos[("post-init", NAMES[b])][0] < pos[("post-init", NAMES[a])][0]:
+                        out.append(("order-postinit:through-hookless", "graph %s listing %s: post-init of %s ran before that of %s, which it depends on through modules without a post-init hook" % (
+                            genv, listing, NAMES[a], NAMES[b])))
+        pis = [pos[("post-init", NAMES[u])][0] for u in need if u not in nopost]
+        if not pis:
+            return out
+        pi_first = min(pis)
+        pi_last = max(pis)
         dt_first = min(pos[("dtor", NAMES[u])][0] for u in need)
         if not (ctor_last < pi_first and pi_last < dt_first):
             out.append(("phase-order", "graph %s listing %s: phases overlap: %s" % (genv, listing, events)))
@@ -284,6 +307,25 @@ def gen_cases(tier, seed, scale):
             lst.append(rng.randrange(nm))
         cases.append({"kind": "dag2", "n": n, "edges": edges, "listing": lst, "names": names, "nolib": list(range(nm, n)),
                       "genv": graph_env(edges, rng, names=names)})
+    # modules with dependencies but without a post-init hook, in the middle of chains; cycles that pass through them
+    for _ in range(int((300 if tier == "quick" else 4000) * scale)):
+        nm = rng.randint(1, 4)
+        nn = rng.randint(1, 3)
+        names = NAMES[:nm] + NOPOST[:nn]
+        n = nm + nn
+        perm = list(range(n))
+        rng.shuffle(perm)
+        cyc = rng.random() < 0.25
+        edges = [(perm[i], perm[j]) for i in range(n) for j in range(i + 1, n) if rng.random() < 0.45]
+        if cyc:
+            # close a cycle through at least one hook-less module
+            h = rng.choice(range(nm, n))
+            o = rng.choice([u for u in range(n) if u != h])
+            edges = [e for e in edges if e not in ((h, o), (o, h))] + [(h, o), (o, h)]
+        lst = list(range(n))
+        rng.shuffle(lst)
+        cases.append({"kind": "cycle" if cyc else "dag2", "n": n, "edges": edges, "listing": lst, "names": names, "nopost": list(range(nm, n)),
+                      "genv": graph_env(edges, rng, names=names)})
     # hundreds of modules: sparse random DAGs over 260-300 modules, all listed in random order (every module is a walk root at some point)
     for _ in range(2 if tier == "quick" else 12):
         n = rng.choice([260, 300])
@@ -358,6 +400,9 @@ def prepare(tag):
     nolib = build.build_shared(out, "asan", "nolib", "nolib.c")
     for nm in LIBS:
         shutil.copy(nolib, os.path.join(moddir, nm + ".so"))
+    nopost = build.build_shared(out, "asan", "nopost", "nopost.c")
+    for nm in NOPOST:
+        shutil.copy(nopost, os.path.join(moddir, nm + ".so"))
     return b["exe"], moddir
 
 
@@ -374,6 +419,8 @@ def run(chk, tier, scale=1.0):
             mp = case["kind"] == "dag" and multipath(case["edges"], case["n"])
             if case.get("nolib"):
                 chk.count("runs_with_constructorless_modules")
+            if case.get("nopost"):
+                chk.count("runs_with_hookless_modules")
             if case["n"] >= 200:
                 chk.count("runs_with_hundreds_of_modules")
             chk.add_case(vcommon.h(key + (tuple(map(tuple, case.get("anti", ()))),)), nev > 0 or case["kind"] not in ("dag", "anti", "dag2"))
